@@ -11,7 +11,7 @@ if ! git -C /repo diff --quiet; then echo "/repo has uncommitted changes - refus
 git -C /repo apply $D/patch.diff || { echo "patch does not apply"; exit 2; }
 trap 'git -C /repo checkout -- . ; git -C /repo clean -fdq -- ciphercore-base/tests 2>/dev/null' EXIT
 OUT=$D/result-$TIER.txt
-echo "seed $NAME on /repo $(git -C /repo rev-parse --short HEAD), tier $TIER, $(date -u +%FT%TZ)" > $OUT
+echo "seed $NAME on /repo $(git -C /repo rev-parse --short HEAD), tier $TIER, $(date -u +%FT%TZ)" >> $OUT
 for id in $IDS; do
   s=$(date +%s)
   res=$(cd /verif && ./check $id --tier $TIER 2>/dev/null | grep -E "^(OK|VIOLATION|DETAIL|MACHINERY)" | cut -c1-400)
